@@ -195,6 +195,8 @@ def gen_case(rnd, tier, index):
         wbgen.add_big_range_gadget(rnd, spec)     # a range of > 1000 cells, nearly all blank
     if rnd.random() < 0.08:
         wbgen.add_lookup_gadget(rnd, spec)        # whole-column lookups, look-alike tables
+    if rnd.random() < 0.06:
+        wbgen.add_branch_gadget(rnd, spec)        # IF / CHOOSE / IFERROR over branch cells
     cfg = draw_cfg(rnd, spec, tier)
     if cfg.get('origin') != 'xlsx' and rnd.random() < 0.12:
         wbgen.add_table_gadget(rnd, spec)     # structured references
